@@ -281,6 +281,9 @@ func (jr *jpegReader) readExif() (err error) {
 		if err = jr.ExifReader(jr.br, exifHeader); err != nil {
 			return err
 		}
+		// The Exif reader consumes its declared length from the underlying
+		// reader directly: account for it in the absolute offset.
+		jr.discarded += exifLength
 		// Discard remaining bytes
 		remain = 0
 	}
